@@ -1,5 +1,6 @@
 """C10 — CMSHeap: no belief-panics on sketch estimates; both indexes stay paired; capacity; ordering."""
 from ..paths import PathEnumerator
+from ..guards import fv
 from ..terms import TermBuilder, fmt, mk, const, subterms, contains
 from ..guards import panic_sites, atomic_facts, int_bounds
 from .common import SELF, self_field, config_fields
@@ -130,7 +131,7 @@ def heap_pairing_rules(ctx, add):
             tn = dict(tv[3]).get("n") if tv[0] == "adt" else None
             if tn != mv:
                 probs_pair.append("new key: tree count %s but map count %s" % (fmt(tn) if tn else "?", fmt(mv)))
-            if facts.get(repr(size_lt_k)) is not True:
+            if fv(facts, size_lt_k) is not True:
                 probs_cap.append("a key is added without the guard size < k")
         if pat == (1, 1, 1, 1, 0):
             tv = tree_ins[0]["args"][1]
@@ -144,11 +145,11 @@ def heap_pairing_rules(ctx, add):
             if map_rem[0]["args"][1] != ("field", rem_t, "obj"):
                 probs_pair.append("map entry removed is not the displaced entry's key")
             guard = mk("Lt", ("field", rem_t, "n"), mv)
-            if facts.get(repr(guard)) is not True:
+            if fv(facts, guard) is not True:
                 probs_pair.append("displacement is not guarded by estimate > min.n")
-        if growth_map > 0 and facts.get(repr(size_lt_k)) is not True:
+        if growth_map > 0 and fv(facts, size_lt_k) is not True:
             probs_cap.append("a net-growing path is not guarded by size < k")
-        if facts.get(repr(size_lt_k)) is True and pat not in ((1, 0, 1, 0, 0),):
+        if fv(facts, size_lt_k) is True and pat not in ((1, 0, 1, 0, 0),):
             if pat != (1, 1, 0, 0, 1):
                 probs_cap.append("with room, a new key is not inserted (pattern %s)" % (pat,))
     ctx.check(not probs_pair and len(pats) >= 4, "R10-paired", add.key, add, "%d paths, patterns %s: tree and obj2count change together with equal counts" % (n, sorted(pats)),
@@ -190,6 +191,15 @@ def order_and_config_rules(ctx, add, new):
         if okc:
             facts = atomic_facts(cmpf, prog, obj_cmp_bb, tbc)
             okc = any(c[0] == "op" and c[1] == "Eq" and c[2][1] == const(0) and t for c, t in facts) or any(c[0] == "op" and c[1] == "Eq" and t for c, t in facts)
+        if not okc:
+            # combinator form: self.n.cmp(&other.n).then_with(|| self.obj.cmp(&other.obj))
+            from ..terms import apply_closure
+            r = tbc.return_term()
+            sp, op_ = ("param", 1, "self"), ("param", 2, "other")
+            if r[0] == "call" and r[1].endswith("then_with") and len(r[2]) == 2 and r[2][0][0] == "call" and r[2][0][1].endswith("::cmp") \
+                    and r[2][0][2] == (("field", sp, "n"), ("field", op_, "n")):
+                inner = apply_closure(r[2][1], ())
+                okc = inner[0] == "call" and inner[1].endswith("::cmp") and inner[2] == (("field", sp, "obj"), ("field", op_, "obj"))
         # Greater/Less arms return what the n-comparison says
         pec = PathEnumerator(cmpf, prog, ctx.summ)
         ctx.check(okc, "R10-order", cmpf.key, cmpf, "TreeEntry::cmp compares n first and obj only when n is equal", "TreeEntry::cmp is not lexicographic on (n, obj)")
